@@ -47,6 +47,8 @@ def cases(tier, seed):
         bases += [space.bind_def(n, k, c, order=i, sensors_shape=s) for i, (n, k, c, s) in enumerate(
             [(3, 1, 2, (3,)), (3, 2, 1, (1, 2, 1)), (2, 2, 2, (2, 2)), (3, 1, 1, (1,)), (1, 1, 1, (2,)), (2, 0, 0, (3, 1)),
              (3, 2, 0, (2, 1)), (1, 2, 2, (1, 1))])]
+    for b_ in (coupled_def(), bases[1], bases[3]):
+        yield {"kind": "validate-twin", "base": b_, "count": 6 if tier == "quick" else 24}
     for bi, base in enumerate(bases):
         for ri, ren in enumerate(renamings(base)):
             yield {"kind": "twin", "base": base, "ren": ren, "cpp": (tier == "thorough" and ri % 2 == 0) or (bi < 2 and ri % 3 == 0),
@@ -418,8 +420,60 @@ def compare(ob, ot, r, lab, fail):
     return n
 
 
+def coupled_def():
+    """nonlinear cross-coupled model (p' = p + q r dt, s' = s + p q dt): the kind of model the optional extra validation reasons about"""
+    S, add, mul, DT = space.S, space.add, space.mul, space.DT
+    model = [["p", add(S("p"), mul(mul(S("q"), S("r")), DT))], ["q", S("q")], ["r", add(S("r"), mul(DT, S("u")))],
+             ["s", add(S("s"), mul(mul(S("p"), S("q")), DT))]]
+    return space.mkdef("coupled4", ["s", "p", "r", "q"], ["u"], [], model, [], [["u", 0.25]], [["gps", [["r1", S("p")], ["r2", add(S("s"), S("q"))]]]],
+                       [["gps", [["r2", 0.5], ["r1", 0.25]]]])
+
+
+def eval_validate_twin(case):
+    """accept / refuse decisions with Config(extra_validation=True) do not depend on names, declaration order or container either"""
+    from formak import python as fpy
+    from formak.exceptions import ModelConstructionError
+    base = case["base"]
+    fails, n, sigs = [], 0, []
+
+    def outcome(d):
+        try:
+            fpy.compile_ekf(pyimpl.ui_model(d), pyimpl.pnoise(d), pyimpl.sensors(d), pyimpl.snoise(d), pyimpl.calmap(d),
+                            config=fpy.Config(extra_validation=True))
+            return "accepted"
+        except ModelConstructionError:
+            return "refused:ModelConstructionError"
+        except Exception as e:
+            return f"raised:{type(e).__name__}"
+
+    from fv import core
+    with core.quiet():
+        ob = outcome(base)
+    for ri, ren in enumerate(renamings(base)[: case["count"]]):
+        for container in ("set", "list"):
+            for rev in (False, True):
+                twin = space.rename_def(base, ren)
+                twin["container"] = container
+                if rev:
+                    for k in ("state", "control", "calibration", "model", "calmap", "pnoise"):
+                        twin[k] = list(reversed(twin[k]))
+                elif ri % 2:
+                    twin["model"] = twin["model"][1:] + twin["model"][:1]  # update dict declared in an order of its own
+                with core.quiet():
+                    ot = outcome(twin)
+                n += 1
+                sigs.append(f"vt:{base['name']}:{ri}:{container}:{rev}")
+                if ot != ob and not fails:
+                    fails.append({"key": "extra-validation-depends-on-declaration", "what": f"{base['name']} with extra_validation=True is {ob}, but "
+                                  f"renamed {ren} / container {container} / {'reversed' if rev else 'rotated' if ri % 2 else 'same'} declaration order is {ot}"})
+    return {"n": n, "fails": fails, "sigs": sigs, "outcomes": ["validate-twin", f"validate-twin:{ob.split(':')[0]}"],
+            "sample": {"kind": "validate-twin", "definition": base["name"], "outcome": ob, "variants": n}}
+
+
 def eval_case(case):
+    if case["kind"] == "validate-twin":
+        return eval_validate_twin(case)
     return eval_construct(case) if case["kind"] == "construct" else eval_twin(case)
 
 
-REQUIRED_OUTCOMES = ["constructed", "twin-compared", "twin-compared-cpp"]
+REQUIRED_OUTCOMES = ["constructed", "twin-compared", "twin-compared-cpp", "validate-twin"]
